@@ -444,7 +444,8 @@ impl Allocator for Arena {
     #[cfg(feature = "tracing")]
     tracing::debug!("discard {size} bytes");
 
-    self.header_mut().discarded += size;
+    let header = self.header_mut();
+    header.discarded = header.discarded.wrapping_add(size);
   }
 
   #[inline]
